@@ -103,6 +103,9 @@ jobs:
       - run: echo ${{ «steps».«s1».«outputs».«aout» }} ${{ «steps».«s2».«outputs».«ref» }} ${{ «steps»['«s1»'].«conclusion» }}
         env:
           «senv»: ${{ «matrix».«os» }} ${{ «matrix».«extra» }} ${{ «matrix».«ver».«maj» }} ${{ «matrix»['«os»'] }}
+      - id: «sphinx_of_black_quartz_judge_my_vow»
+        run: echo
+      - run: echo ${{ «steps».«sphinx_of_black_quartz_judge_my_vow».«outcome» }} ${{ «steps»['«sphinx_of_black_quartz_judge_my_vow»'].«conclusion» }}
       - run: echo ${{ «env».«wenv» }} ${{ «env».«jenv» }} ${{ «inputs».«din» }} ${{ «github».«event».«inputs».«din» }} ${{ «job».«services».«db».«id» }}
       - run: echo ${{ «github».«sha» }} ${{ «github»['«ref_name»'] }} ${{ «runner».«os» }} ${{ «vars».«some_var» }} ${{ «strategy».«fail-fast» }}
       - run: echo ${{ «contains»(«github».«ref», 'x') }} ${{ «format»('{0}', «toJSON»(«github».«event»)) }} ${{ «fromJSON»('{"«jk»":1}').«jk» }} ${{ «startsWith»('a', 'b') && «hashFiles»('x') }}
@@ -129,6 +132,8 @@ var c08Noise = map[string]string{
 	"${{ «needs».«caller».«outputs».«cout» }}": "${{ «needs».«caller».«outputs».«cout» }} ${{ «needs».«caller».«outputs».nosuchout }} ${{ «steps».nosuchstep }}",
 	"          «ref»: main\n":                  "          «ref»: main\n          nosuchinput: 1\n",
 	"      «cin»: ${{":                         "      nosuchcin: 1\n      «cin»: ${{",
+	// a job that needs itself: what `needs` holds there must not depend on the case of the id
+	"  «last»:\n    needs: [«prep», «caller»]\n": "  «selfneed»:\n    needs: [«selfneed»]\n    runs-on: ubuntu-latest\n    steps:\n      - run: echo ${{ «needs».«selfneed».«result» }}\n  «last»:\n    needs: [«prep», «caller»]\n",
 	// a typed input of the callee is type-checked whatever the case of the key at the caller
 	"      «cnum»: 1\n": "      «cnum»: ${{ 'abc' }}\n",
 	// the script input of actions/github-script is recognised whatever the case of its name
